@@ -66,6 +66,20 @@ checks.update({
          "PARTIAL claim (DESIGN.md section 0): decides 'the predicted reply equals the reply the real server sends' for all three versions, phones of 1-12 (20) digits incl. ones whose template checksum is 0x7e/0x7d, default and custom bodies, under random segmentation and schedules, with a serial wrap-around run (2013 in both tiers, 2019 in the thorough tier). Riding along on every generated frame: decode, header and serial by the reference codec; a custom frame carries exactly the body it was given; a frame with the simulator's default body parses with a fresh value of its type and re-encodes identically. The re-encode clause for arbitrary custom bodies is not decided here.",
          "pairs replies with requests in order using the C06 reference model; a run in which the server disagrees with that model is C06's business and is skipped here"),
 })
+# additions of the eighth round (appended to the level texts above)
+EXTRA = {
+ "C09": "Since the eighth round: unanswered platform commands while messages are held, stalled transfers whose held packets precede a re-request, and the rule that a delivered message's header is never used to encode a re-request or a platform command.",
+ "C11": "Since the eighth round: 30 % of the runs install a WithKeyFunc whose keys differ from the phone numbers, part of them without a key for heartbeats (served, not joined; the next message with a key joins).",
+ "C13": "Since the eighth round: listen failure as a fault (Run returns, nobody connects): commands issued before, while and after it must return.",
+ "C15": "Since the eighth round: a later alarm on the same connection uploads a new file under an already used name (a completion report is judged against every file of that name announced so far); names may contain a zero byte.",
+ "C16": "Since the eighth round: a later alarm reuses a file name, with losses and a resupply round in the new upload.",
+ "C18": "Since the eighth round: part of the runs keep the library's default event objects, so that their fields are in the detector's view; C09's and C11's new scenarios are inherited.",
+ "C19": "Since the eighth round: announced names longer than the 50-byte name field of a data packet whose first 50 bytes are a harmless local path (data packets carry the prefix).",
+ "C20": "Since the eighth round: requests for unsupported commands between frames (no frame, no serial consumed) and custom location bodies of 999..1023 bytes.",
+}
+for _k, _v in EXTRA.items():
+    _t = checks[_k]
+    checks[_k] = (_t[0], _t[1], _t[2], _t[3] + " " + _v) + tuple(_t[4:])
 pending = {}
 all_ids = ["C%02d" % i for i in range(1, 21)]
 man = {
